@@ -49,6 +49,8 @@ type Workload struct {
 	stop    int32
 	Acks    int64
 	Errors  int64
+	// Force, when set, is the kind of every following operation ("remove" empties the collection)
+	Force string
 }
 
 func New(ids, dim, base int) *Workload {
@@ -152,6 +154,9 @@ func (w *Workload) StepW(rng *rand.Rand, c *IdClient, d Writer, timeout time.Dur
 		kinds = []string{"update", "update", "remove", "insert"}
 	}
 	op.Kind = kinds[rng.Intn(len(kinds))]
+	if w.Force != "" {
+		op.Kind = w.Force
+	}
 	if rng.Intn(4) == 0 {
 		op.Kind = "batch-" + op.Kind
 	}
